@@ -26,7 +26,7 @@ Wrap(c, data) == IF EndsWith(c.ty, STRING_SUFFIX) THEN <<DQ>> \o data \o <<DQ>> 
    the span of every other one by its flattened value (quoted for string types); keep all other bytes. *)
 RECURSIVE Flatten(_)
 Flatten(n) ==
-  LET fk == [i \in 1..Len(n.kids) |-> Flatten(n.kids[i])]
+  LET fk == Tup([i \in 1..Len(n.kids) |-> Flatten(n.kids[i])])    \* evaluated once (a lazy function would recompute per use)
       RECURSIVE Chosen(_, _)
       Chosen(i, lastEnd) ==
         IF i > Len(n.kids) THEN <<>>
